@@ -201,10 +201,17 @@ func runC13(c *Ctx) {
 						panicked = true
 					}
 				}()
-				if r.Bool() {
+				switch r.Intn(3) {
+				case 0:
 					g.New(name, nil)
-				} else {
+				case 1:
 					g.Add(nil, env.NewRouter(name))
+				default: // the very same router object again, with another matcher: rejected, and its matcher must stay what it was
+					for _, gr := range routers {
+						if gr.name == name {
+							g.Add(genMatcher(r, 0).build(), gr.r)
+						}
+					}
 				}
 			}()
 			c.Eval()
